@@ -248,6 +248,7 @@ fn run_case<C: Cont>(st: &mut Stream, proc_: &mut Processor<C>, c: &Case) {
         // "exactly one input per incoming edge from a different node, each referring to that neighbour's
         //  current output buffers, and a node's own buffers are never presented to it"
         let mut pos = vec![usize::MAX; bound];
+        let mut inputs_ok = true;
         for (k, (n, ids, vals)) in log.iter().enumerate() {
             let want: Vec<usize> = sorted(edges.iter().filter(|e| e.1 == *n && e.0 != *n).map(|e| e.0).collect());
             let got: Option<Vec<usize>> = ids.iter().cloned().collect();
@@ -260,7 +261,7 @@ fn run_case<C: Cont>(st: &mut Stream, proc_: &mut Processor<C>, c: &Case) {
                         }
                     }
                 }
-                other => st.oracle_fail("inputs of an invocation differ from one per incoming edge from a different node", &case_txt, &format!("node {}: {:?}", n, want), &format!("{:?}", other.map(|v| v.iter().map(|x| x.to_string()).collect::<Vec<_>>()).unwrap_or(vec![format!("{:?}", ids)]))),
+                other => { inputs_ok = false; st.oracle_fail("inputs of an invocation differ from one per incoming edge from a different node", &case_txt, &format!("node {}: {:?}", n, want), &format!("{:?}", other.map(|v| v.iter().map(|x| x.to_string()).collect::<Vec<_>>()).unwrap_or(vec![format!("{:?}", ids)]))) }
             }
             if ids.iter().any(|i| *i == Some(*n)) { st.oracle_fail("a node's own buffers were presented to it as an input", &case_txt, "", &format!("node {}", n)); }
             shadow[*n] = hash_node(*n, vals);
@@ -273,7 +274,7 @@ fn run_case<C: Cont>(st: &mut Stream, proc_: &mut Processor<C>, c: &Case) {
         if dag && sorted(order.clone()) == want_set {
             let mut bad = false;
             for &(a, b) in &edges { if up[b] && !(pos[a] < pos[b]) { bad = true; st.oracle_fail("a node was processed before a node that feeds it (acyclic upstream subgraph)", &case_txt, &format!("{} before {}", a, b), &format!("{:?}", order)); break; } }
-            if !bad {
+            if !bad && inputs_ok {
                 // recursive functional evaluation (memoised), inputs in the order they were presented
                 let before: Vec<u64> = match &prev { Some((_, b)) => b.clone(), None => init.clone() };
                 let mut memo: Vec<Option<u64>> = vec![None; bound];
